@@ -778,7 +778,7 @@ func Run(c *vh.Ctx) {
 	}
 	ncl := clauses(r)
 	if !r.stopped {
-		c.Res.ExhaustiveWhat += fmt.Sprintf("; clause lists with repeated and loosely-equal keys (harness-only: switch over every label list of length 2..3 from {1, 2, '1', 'a', 1.0, call with effect = 1, = 2} and length 4 from {1,2,3} x every break / fall-through pattern x default or not; match over the same lists x every grouping into multi-condition arms; if / elseif chains over repeated tests with effects; conditions int, string, float, null, each list run 9 times): %d programs", ncl)
+		c.Res.ExhaustiveWhat += fmt.Sprintf("; clause lists with repeated and loosely-equal keys (harness-only: switch over every label list of length 2..3 from {1, 2, '1', 'a', 1.0, call with effect = 1, = 2} and length 4 from {1,2,3} x every break / fall-through pattern x default or not; match over the same lists x every grouping into multi-condition arms; if / elseif chains over repeated tests with effects; conditions int, string, float, fractional float, null, true, false, each list run 12 times; every ordered pair of 24 values of every kind — null, bools, ints, floats, numeric / non-numeric strings, arrays, objects — through a switch and through `==`, which must agree with each other and with the Go statement of the comparison rule): %d programs", ncl)
 	}
 	// seeded programs
 	n := c.N(1500, 60000)
